@@ -99,7 +99,8 @@ def checks(I, rep, U, batch, E):
      D + '.TanhBijector.forward')
   ob('R20.2', 'tanh inverse', I.apply(I.attr(tb, 'inverse'), [a], {}), elemwise(lambda v: uf('arctanh', v), a),
      D + '.TanhBijector.inverse')
-  n2 = Struct('NormalDistribution', {'loc': mu, 'scale': sg}, home=D)
+  # built through the real constructor (robust to added attributes / cached values)
+  n2 = I.apply(ClsRef(D, load(D)['classes']['NormalDistribution']), [], {'loc': mu, 'scale': sg})
   ob('R20.3', 'normal.log_prob', I.apply(I.attr(n2, 'log_prob'), [a], {}), ref_logn(a, mu, sg),
      D + '.NormalDistribution.log_prob')
   ob('R20.3', 'normal.sample', I.apply(I.attr(n2, 'sample'), [], {'seed': key}), raw,
